@@ -43,6 +43,10 @@ class C09(object):
                 if k in ('set', 'del'):
                     if rng.random() < 0.12:
                         o = [9] * c['n']
+                    elif rng.random() < 0.08:
+                        # an outcome of the wrong length whose symbols are all valid ones
+                        m_ = rng.choice(members)
+                        o = rng.choice([m_[:-1], m_ + [m_[-1]], m_ + m_])
                     else:
                         o = rng.choice(members)
                     if k == 'set':
@@ -124,8 +128,11 @@ class C09(object):
             obs = lambda dd: gen.obs_py(dd, klass)
             margs = gen.model_construct_args(case)
         mj = drv.call('construct', margs)
-        if mj[0] != 'ok' or gen.compare_obs(obs(d), gen.obs_model(mj[1])) is not None:
+        diff0 = 'the model rejects the specification' if mj[0] != 'ok' else gen.compare_obs(obs(d), gen.obs_model(mj[1]))
+        if diff0 is not None:
+            # every history starts from the constructed object: if that already differs from the table model, say so
             r.features.append('construct-disagree')
+            r.mismatch = 'initial state: ' + diff0
             return r
         mdist = mj[2]
 
@@ -219,6 +226,8 @@ class C09(object):
                 r.oracle_fail = 'op %d %s with an outcome outside the sample space gave %s, not InvalidOutcome' % (i, op, out)
             elif op[0] in ('set', 'del') and op[1] in space0 and out != 'ok':
                 r.oracle_fail = 'op %d %s on a member of the sample space raised %s' % (i, op, out)
+            elif op[0] == 'del' and out == 'ok' and gen.lin_of(float(d[topy(op[1])]), d.get_base()) != 0.0:
+                r.oracle_fail = 'op %d: after del d[%s] the outcome still reads %r' % (i, op[1], float(d[topy(op[1])]))
             elif written is not None and out == 'ok':
                 got = float(d[topy(written[0])])
                 if not (got == written[1] or (math.isnan(got) and math.isnan(written[1]))):
